@@ -390,7 +390,15 @@ spec('C08', run=run_c08, search=search_with(run_c08),
 
 
 def run_c09(ctx, tier=None, seed=None):
-    std_pipe(ctx, 'temp-exact', 'wide', 'convx', 'exact', tier=tier, seed=seed, only='^convx [^ ]+ [^ ]+ %s ' % TEMP)
+    # exact storage: the unit table precedes the cases, so that what a rational / integer storage type publishes for a
+    # temperature unit (coefficient, both offsets) is compared with the declaration — the model of a line takes the
+    # published numbers as given, and an offset lost for one storage class only would otherwise agree with itself
+    if cargo_build(ctx, 'wide', ['convx']):
+        dump = lean_dump(ctx)
+        if dump is not None:
+            res = pipe(ctx, 'temp-exact', "{ cat %s; %s exact | { grep -E '%s' || true; }; }" % (
+                dump, bin_path('convx', False, 'wide'), '^convx [^ ]+ [^ ]+ %s ' % TEMP), tier=tier, seed=seed)
+            absorb(ctx, res, 'temp-exact')
     std_pipe(ctx, 'temp-float-bases', 'fl', 'conv', 'others', env={'VERIF_LINES': 'conv'}, tier=tier, seed=seed, only='^conv [^ ]+ [^ ]+ %s ' % TEMP)
     std_pipe(ctx, 'temp-float-all-units', 'fl,allsi', 'conv', 'si', env={'VERIF_LINES': 'conv'}, tier=tier, seed=seed, only='^conv [^ ]+ [^ ]+ %s ' % TEMP)
     std_pipe(ctx, 'temp-arith', 'wide', 'ops', 'all', tier=tier, seed=seed, only='^bin [^ ]+ (tt|ti)[^ ]* ')
